@@ -15,6 +15,12 @@ checks = {
  "C02": seq("Same engine over the 'tail' alphabet (publish 0-2, delete last / first / all / whole head / whole reader segment, reopen plain/Recover/Check/with indexes removed, Sync) for 4 index configurations x V1/V2 plus the core family: Publish must return model.Next+n and write back exactly the offsets in between over the bogus ones supplied, NextOffset/Sync must equal the model counter after every step, unique value tags make any reuse visible in the scan.", "DESIGN.md 4/C02"),
  "C03": seq("At every state of the core/cfg/roll/tail families: Consume(o,m) for every o in [-5,Next+2] and m in {1,2,3,40} (thorough 1..40) judged by the result-driven cursor rule on the list model, plus cursor walks that must visit every live message once and end at NextOffset.", "DESIGN.md 4/C03"),
  "C04": seq("At every state of the core/cfg/roll/tail families: Get(o) for every o in [0,Next+2] and both relative offsets, classified live / deleted (ErrNotFound) / unassigned (ErrInvalidOffset) against the list model.", "DESIGN.md 4/C04"),
+ "C05": dict(engine="crashx", cat="fault_enumeration", technique="BFS over histories x exhaustive enumeration of crash images from the FS journal of the real code",
+   text="Breadth-first search over histories of the crash family (publish with rollover, every single delete, whole-segment deletes, Sync, reopen plain / Recover / eager migration to the other version, Migrate; AutoSync on/off; V1 and V2) on the real code with a journaling shim under the os package. For the last letter of every transition: one crash image per file-system event prefix, torn variants of every record / index-item append (every byte for appends up to 48 bytes, the header/trailer boundary set beyond; thorough: every byte), and for short histories (thorough: all) every event prefix of the recovering Open itself (depth 2). Every distinct image is materialised, opened with Recover on the real code, observed through all views, recovered a second time (files must not change), appended to, Checked and re-read. Oracle: recovered content equals one of the states the property allows for the call in flight, NextOffset not below the acknowledged one, views agree, idempotence, append + Check.",
+   ref="DESIGN.md 3.2, 4/C05", note="Fault model as fixed by the property (process crash with intact page cache; first 8 bytes of a file atomic). Bounds: history depth as reported, logs of at most 6 messages. The journal is validated byte for byte against the real directory after every transition. Trusted base: the os shim, tmpfs, the list model."),
+ "C06": dict(engine="crashx", cat="fault_enumeration", technique="BFS over histories x exhaustive enumeration of tail-loss images from the FS journal (fsync-driven durability model)",
+   text="Same histories and journal as C05. The journal tracks, per file identity (following renames), the length covered by the last fsync. At every event point of the last letter of every transition, every combination of tail-loss cuts of every file with unsynced bytes is materialised (cut candidates per file: fsynced length, every append boundary since, torn lengths inside the last append, current length), opened with Recover on the real code and compared with the acknowledged-durable prefix: w = largest offset returned by Sync, by Publish under AutoSync, or NextOffset at a returned Close. Oracle: Open(Recover) succeeds, the recovered sequence is a prefix of a state allowed for the call in flight and contains every message below w, NextOffset >= w.",
+   ref="DESIGN.md 3.2, 4/C06", note="Fault model as fixed by the property (independent tail loss per file between fsynced and current length, directory operations durable in program order, first 8 bytes of a file atomic). Bounds: history depth as reported; at most 4000 cut combinations per point (reported as a cap if ever hit). Trusted base: the os shim's fsync tracking (journal validated against the real directory), tmpfs."),
  "C07": dict(engine="dmgx", cat="fault_enumeration", technique="exhaustive enumeration of the damage space vs independent reference parser",
    text="For every base head segment (4 record shapes x 4 index layouts, V2; V1 for truncation and index damage) built by the real writer, the complete damage space is enumerated: truncation to every length, every byte after the file header altered three ways, zero / 0xFF / pseudo-random tails of every length up to two records, index missing / truncated to every length / every byte inverted / extra plausible items / other layout. Each case goes through klevdb.Recover and through Open(Recover)+Close on the real code; an independent parser of the documented format says how many leading records are valid. Oracle: log after Recover is exactly that prefix, index (if present) equals the derived one, no temp file remains, undamaged segments are byte-identical, Check/Open(Check) before recovery succeed iff the reference parser consumes the whole file and the index is absent or equal, Check succeeds after Recover and after one more real Publish, and the scan returns k+1 messages.",
    ref="DESIGN.md 3.3, 4/C07", note="Bounds: segments of 1-4 records with key/value lengths from {0,1,3,40}; single-byte corruption (three replacement values per byte), not multi-byte. Trusted base: the reference parser (cross-checked against klevdb by C13), tmpfs."),
@@ -47,6 +53,7 @@ def main():
       },
       "engines": [
         {"name": "seqx", "path": "h/seqx", "serves_properties": [k for k,v in checks.items() if v["engine"]=="seqx"], "kind_free_text": "explicit-state BFS over API histories, real code vs list model, replay-from-scratch successors, canonical state keys"},
+        {"name": "crashx", "path": "h/crashx", "serves_properties": ["C05", "C06"], "kind_free_text": "explicit-state BFS over API histories on the real code; per transition, exhaustive enumeration of crash / torn-write / tail-loss images computed from the file-system journal, each recovered on the real code"},
         {"name": "dmgx", "path": "h/dmgx", "serves_properties": [k for k,v in checks.items() if v["engine"]=="dmgx"], "kind_free_text": "exhaustive enumeration of byte damage (truncation, bit flips, overwrites, tails, index damage) on segments written by the real code, judged by an independent reference parser"},
         {"name": "codecx", "path": "h/codecx", "serves_properties": ["C13"], "kind_free_text": "exhaustive small-domain round trips of record and index formats vs independent reference codec"},
       ],
